@@ -45,6 +45,7 @@ func textSpecBase() map[string]interface{} {
        "pat": {"type": "string", "pattern": "^p+$"},
        "kind": {"type": "string", "description": "ked", "enum": ["cat", "dog"]},
        "tagged": {"type": "array", "description": "ard", "items": {"type": "string", "description": "itd", "pattern": "^i+$"}}}},
+   "Code": {"type": "string", "title": "ct", "description": "cd", "example": "cex"},
    "Err": {"type": "object", "description": "errd", "properties": {"code": {"type": "integer", "description": "ecd", "example": 7}}}}
 }`), &doc)
 	return doc
@@ -80,6 +81,8 @@ func TextFields() []TextField {
 		{"property.enum.description", p("definitions", "Pet", "properties", "kind", "description")},
 		{"array.description", p("definitions", "Pet", "properties", "tagged", "description")}, {"items.pattern", p("definitions", "Pet", "properties", "tagged", "items", "pattern")},
 		{"definition2.description", p("definitions", "Err", "description")},
+		{"definition3.title", p("definitions", "Code", "title")}, {"definition3.description", p("definitions", "Code", "description")},
+		{"definition3.example", p("definitions", "Code", "example")},
 	}
 }
 
